@@ -20,11 +20,22 @@ def xptLens (seed n count cap : Nat) : List (List Nat) :=
 `sentOf_opsOf_filter`): every datagram once, in order, intact, rightly attributed -/
 def xptCmd (args : List String) : String :=
   match args with
+  | ["over", k, m] =>
+    if !(k = "chan" ∨ k = "unix") ∨ !(m = "b" ∨ m = "nb") then "BADARG" else
+    -- `recvInto 64` on datagrams of 65, 100 and 10 bytes
+    let show1 (n : Nat) : String :=
+      match recvInto 64 (k = "chan") ⟨0, 0, List.replicate n 0⟩ with
+      | .ok (len, _) => s!"OK:{len}:1"
+      | .err => "ERR"
+      | .panic => "PANIC"
+    "OVER " ++ show1 65 ++ " " ++ show1 100 ++ " " ++ show1 10
   | ["dead", k] => if k = "chan" ∨ k = "unix" then "DEAD live=OK after=ERR" else "BADARG"
   | [kind, mode, n, count, seed, cap] =>
     match n.toNat?, count.toNat?, seed.toNat?, cap.toNat? with
     | some n, some count, some seed, some cap =>
-      if !(kind = "chan" ∨ kind = "unix") ∨ !(mode = "b" ∨ mode = "nb") ∨ n < 1 ∨ n > 8 ∨ cap < 8 ∨ cap > 60000 ∨ count > 100000
+      let skbuf := mode = "bs" ∨ mode = "nbs"
+      let mode := if mode = "bs" then "b" else if mode = "nbs" then "nb" else mode
+      if !(kind = "chan" ∨ kind = "unix") ∨ !(mode = "b" ∨ mode = "nb") ∨ (skbuf ∧ kind ≠ "unix") ∨ n < 1 ∨ n > 8 ∨ cap < 8 ∨ cap > 60000 ∨ count > 100000
       then "BADARG" else
       -- one admissible delivery order (sender-major); the check compares per sender
       let recs := (List.range n).flatMap fun s => (List.range count).map fun q => s!"{s}:{q}:{xptSize seed n s q cap}:1:1"
@@ -45,6 +56,7 @@ def parseXptRx (t : String) : Option C19.Rx :=
 /-- `ORC C19 <n> <count> <seed> <cap> <mode> @@ <harness answer>` -/
 def orcC19 (args : List String) : String :=
   match args with
+  | "over" :: "@@" :: obs => if obs.any (· = "PANIC") || obs.length ≠ 4 then "FAIL oversize-panic" else "PASS"
   | "dead" :: "@@" :: obs => if obs = ["DEAD", "live=OK", "after=ERR"] then "PASS" else "FAIL dead-handle"
   | n :: count :: seed :: cap :: mode :: "@@" :: obs =>
     match n.toNat?, count.toNat?, seed.toNat?, cap.toNat? with
@@ -57,7 +69,7 @@ def orcC19 (args : List String) : String :=
         | none => "FAIL unparsable-observation"
         | some rx =>
           if !C19.check (xptLens seed n count cap) rx then "FAIL delivery"
-          else if mode = "nb" && !(e1 = "ERR" && e2 = "fast") then "FAIL empty-nonblocking-recv"
+          else if (mode = "nb" || mode = "nbs") && !(e1 = "ERR" && e2 = "fast") then "FAIL empty-nonblocking-recv"
           else "PASS"
       | _ => "FAIL unparsable-observation"
     | _, _, _, _ => "BADARG"
